@@ -11,7 +11,8 @@ native results (and, where sequences are involved, all call sequences).
 §1 closed_is_dead / close_idempotent · §3 timeout_semantics / nonblocking_never_waits · §2 getters_reflect ·
 §4 cloexec · §5 fd_closed_once · §6 failure paths reached by the directed cases of the coverage audit
 (`refused_address_connect / _send_to / _bind`: an address object `p_socket_address_to_native` rejects;
-`new_from_fd_null_iff_error`, `new_from_fd_keeps_descriptor`: the error returns of adoption) ·
+`new_from_fd_null_iff_error`, `new_from_fd_keeps_descriptor`: the error returns of adoption; `adopted_identity`:
+family / protocol / connected of an adopted socket, incl. families the library does not know) ·
 §7 `p_socket_shutdown` reads its `pboolean`s with `== TRUE` (`shutdown_args_partial`, `…_write_only`,
 `…_noncanonical_witness`: the full "non-zero means TRUE" statement is false of the code).
 -/
@@ -497,6 +498,34 @@ theorem new_from_fd_keeps_descriptor (fd : Int) (script : Script) (e : Int) (x :
       unfold newFromFd setDetailsFromFd setFdBlocking
       tr_all (simp [Issued.sys])
     exact key.elim hm
+
+/-- the identity getters (family / type / protocol) and `connected` of an adopted socket, on every script: the family is
+    INET, INET6 or UNKNOWN (whatever 16-bit value `getsockname` wrote); for a family the library does not know the
+    protocol stays UNKNOWN-as-allocated (0), no `getpeername` result is taken and the object is **not connected**; for
+    INET / INET6 the protocol is the one of the native type: STREAM → TCP, DATAGRAM → UDP, SEQPACKET → SCTP, other → 0 -/
+theorem adopted_identity (fd : Int) (script : Script) (e : Int) (ns : Sock) (err : Option PErr) (st : St) (evs : List Ev)
+    (h : runM (newFromFd fd) script e = .ok ((some ns, err), st, evs)) :
+    (ns.family = AF_INET ∨ ns.family = AF_INET6 ∨ ns.family = 0) ∧
+    (ns.family = 0 → ns.protocol = 0 ∧ ns.connected = false) ∧
+    (ns.family ≠ 0 → ns.protocol = protoOfType ns.type 0) := by
+  unfold runM at h
+  cases hm : newFromFd fd { script := script, errno := e } with
+  | stop w => simp [hm] at h
+  | ok a st' evs' =>
+    simp [hm] at h
+    obtain ⟨ha, _, _⟩ := h
+    have := (newFromFd_identity fd).elim hm ns (by rw [ha])
+    exact this
+
+/-- non-vacuity: a SEQPACKET socket of family INET is adopted with protocol SCTP; an AF_UNIX descriptor with family
+    UNKNOWN, protocol 0, not connected, and no `getpeername` among its four native calls before the fcntl pair -/
+example : (runM (newFromFd 6) [{ sys := .getsockopt, ret := .ok 0, val := SOCK_SEQPACKET }, { sys := .getsockname, ret := .ok 0, sa := [2, 0, 0, 80, 127, 0, 0, 1] },
+      { sys := .getpeername, ret := .ok 0 }, { sys := .getsockopt, ret := .ok 0, val := 0 }, { sys := .fcntl, ret := .ok 2 }, { sys := .fcntl, ret := .ok 0 }] 0).toOption.map
+    (fun x => x.1.1.map (fun ns => (ns.family, ns.type, ns.protocol, ns.connected))) = some (some (AF_INET, P_SOCKET_TYPE_SEQPACKET, P_SOCKET_PROTOCOL_SCTP, true)) := by decide
+example : (runM (newFromFd 6) [{ sys := .getsockopt, ret := .ok 0, val := SOCK_STREAM }, { sys := .getsockname, ret := .ok 0, sa := [1, 0, 47, 120, 0] },
+      { sys := .getsockopt, ret := .ok 0, val := 1 }, { sys := .fcntl, ret := .ok 2 }, { sys := .fcntl, ret := .ok 0 }] 0).toOption.map
+    (fun x => (x.1.1.map (fun ns => (ns.family, ns.protocol, ns.connected, ns.keepalive)), x.2.2.map (·.call.sys))) =
+    some (some (0, 0, false, true), [.getsockopt, .getsockname, .getsockopt, .fcntl, .fcntl]) := by decide
 
 /-- non-vacuity: SO_TYPE answers with option length 2 → NULL, INVALID_ARGUMENT, one native call; and a full success -/
 example : (runM (newFromFd 6) [{ sys := .getsockopt, ret := .ok 0, val := 1, len := 2 }] 0).toOption.map
